@@ -22,7 +22,7 @@ def main():
     t0 = time.time()
     res = {"property": prop, "part": "asm-footprint", "tier": tier, "seed": 0, "shard": "0/1", "evaluations": 0, "distinct_nontrivial": 0, "states": 0,
            "transitions": 0, "samples": [], "violations": [], "n_violations": 0, "exhaustive": True, "not_exhaustive_reason": [], "extra": {}, "completed": False,
-           "rule": "gdb single-steps sealAsm / openAsm (message lengths 0,1,15,16,17,33,300 [thorough: 0..50,255..257,600]; tag sizes 16 and 12; 12- and 13-byte nonces), the five block kernels, expandKeyAsm and gHashBlocks; every written byte range (store width from mnemonic / register, enabled lanes of masked stores from the live mask register) must lie within the destination (n [+tag] bytes), the 32-byte scratch block or the routine's stack"}
+           "rule": "gdb single-steps sealAsm / openAsm (message lengths 0,1,15,16,17,33,300 [thorough: 0..50,255..257,600]; tag sizes 16 and 12; 12- and 13-byte nonces), the five block kernels, expandKeyAsm and gHashBlocks; every written byte range (store width from mnemonic / register, enabled lanes of masked stores from the live mask register) must lie within the destination (n [+tag] bytes), the 32-byte scratch block or the routine's stack; every load that begins inside one of the package's static assembly tables (extents from the debuggee's symbol table) must end inside it"}
     pkg = os.path.join(repo, "sm4")
     shutil.copy(os.path.join(VERIF, "inject/sm4/C09_int_test.go"), os.path.join(pkg, "zz_verif_C09_int_test.go"))
     binp = os.path.join(work, "bin", "sm4_fp.test")
@@ -35,6 +35,24 @@ def main():
         res["not_exhaustive_reason"].append("debuggee does not compile against this tree (in-package seam lost): " + p.stdout[-300:])
         json.dump(res, open(out, "w"))
         return
+    # the package's own static tables (GLOBL name<>(SB) of the amd64 assembly files), with their extents in the debuggee
+    import re as _re
+    names = set()
+    for f in os.listdir(pkg):
+        if f.endswith("_amd64.s"):
+            names |= set(_re.findall(r"^\s*GLOBL\s+([A-Za-z0-9_]+)<>\(SB\)", open(os.path.join(pkg, f), errors="replace").read(), _re.M))
+    tables = []
+    try:
+        relf = subprocess.run(["readelf", "-sW", binp], stdout=subprocess.PIPE, stderr=subprocess.DEVNULL, text=True).stdout
+        for line in relf.splitlines():
+            f = line.split()
+            if len(f) >= 8 and f[3] == "OBJECT" and f[4] == "LOCAL" and f[7] in names and f[2].isdigit() and int(f[2]) > 0:
+                tables.append((int(f[1], 16), int(f[1], 16) + int(f[2]), f[7]))
+    except OSError:
+        pass
+    tables.sort()
+    static_env = ",".join("%d:%d" % (a, b) for a, b, _ in tables)
+    res["extra"]["static_tables"] = len(tables)
     lens = [0, 1, 15, 16, 17, 33, 300] if tier == "quick" else list(range(0, 51)) + [255, 256, 257, 600]
     jobs = []
     for fn in ("seal", "open"):
@@ -53,7 +71,7 @@ def main():
         rf = tf + ".ranges"
         os.makedirs(os.path.dirname(tf), exist_ok=True)
         env = dict(os.environ, VX_TRACE_FN=fn, VX_TRACE_LEN=str(n), VX_TRACE_TAG=str(tag), VX_TRACE_SYM=SYM % FN2SYM[fn], VX_TRACE_OUT=tf,
-                   VX_TRACE_RANGES=rf, GODEBUG="asyncpreemptoff=1", GOMAXPROCS="1", GOGC="off")
+                   VX_TRACE_RANGES=rf, VX_STATIC_TABLES=static_env, GODEBUG="asyncpreemptoff=1", GOMAXPROCS="1", GOGC="off")
         cmd = ["gdb", "-q", "-batch", "-nx", "-x", os.path.join(VERIF, "tools/gdbfootprint.py"), "--args", binp, "-test.run", "^TestVX_C09_Target$", "-test.count", "1"]
         p = subprocess.run(cmd, env=env, stdout=subprocess.PIPE, stderr=subprocess.STDOUT, text=True, timeout=1500)
         if not os.path.exists(tf) or not os.path.exists(rf):
@@ -109,6 +127,15 @@ def main():
                               "%s (message %d bytes, tag %d): the instruction at +%d writes bytes [%+d, %+d) relative to the END of its %d-byte destination - outside destination, scratch block and stack (even if it stores back what it read there, a concurrent writer of those bytes loses its update)" % (sym, n, tag, pcoff, rel, hi - dst[1] if dst else 0, (dst[1] - dst[0]) if dst else 0),
                               {"fn": fn, "len": n, "tag": tag, "pc": pcoff})
                     break
+                # loads from the static tables: a load that begins inside a table ends inside it
+                for pcoff, lo, hi in t.get("table_reads", []):
+                    res["states"] += 1
+                    tb = next(((a, b, nm) for a, b, nm in tables if a <= lo < b), None)
+                    if tb and hi > tb[1]:
+                        violation("asm:footprint:%s:read-beyond-table:%s" % (sym, tb[2]),
+                                  "%s: the instruction at +%d loads bytes [%d, %d) of the %d-byte static table %s<> - %d byte(s) beyond its end (memory that belongs to whatever the linker placed next)" % (sym, pcoff, lo - tb[0], hi - tb[0], tb[1] - tb[0], tb[2], hi - tb[1]),
+                                  {"fn": fn, "len": n, "tag": tag, "pc": pcoff, "table": tb[2]})
+                        break
                 res["states"] += len(t["writes"])
             res["distinct_nontrivial"] += 1
             if len(res["samples"]) < 10:
